@@ -181,18 +181,143 @@ def early_exit_edge(body, bi, avoid_polls=True):
 
 
 def returns_reached_only(body, start, polls):
-    """All paths from start end in a return without an await?"""
+    """All paths from start end in a return without an await?  Path sensitive for the variant of Option /
+    Result / ControlFlow values built on the way (an `Err(..)` assigned to a result and tested by `?` further
+    down - the shape a validation helper folded into its caller has)."""
     succ = body.succ()
     seen = set()
-    st = [start]
+    st = [(start, ())]
+    n = 0
     while st:
-        x = st.pop()
-        if x in seen:
+        x, stt = st.pop()
+        if (x, stt) in seen:
             continue
-        seen.add(x)
+        seen.add((x, stt))
+        n += 1
+        if n > 4000:
+            return False
         if x in polls:
             return False
-        st.extend(succ[x])
+        state = dict(stt)
+        bl = body.blocks[x]
+        for s_ in bl['st']:
+            if s_['k'] != 'assign':
+                continue
+            l = s_['pl']['l']
+            if s_['pl']['p']:
+                state.pop(l, None)
+                continue
+            rv = s_['rv']
+            if rv['k'] == 'agg' and rv.get('ak') == 'adt' and 'v' in rv and rv.get('p') in (
+                    'std::result::Result', 'std::option::Option', 'std::ops::ControlFlow'):
+                state[l] = ('var', rv['v'])
+            elif rv['k'] == 'use' and rv['ops'][0]['k'] in ('copy', 'move') and not rv['ops'][0]['pl']['p'] \
+                    and rv['ops'][0]['pl']['l'] in state:
+                state[l] = state[rv['ops'][0]['pl']['l']]
+            elif rv['k'] == 'discr' and not rv['pl']['p'] and state.get(rv['pl']['l'], (None,))[0] == 'var':
+                state[l] = ('int', state[rv['pl']['l']][1])
+            else:
+                state.pop(l, None)
+        t = bl['term']
+        nxt = succ[x]
+        if t['k'] == 'call':
+            dl = t['dst']['l']
+            new = None
+            if t.get('fn') == 'std::ops::Try::branch' and t['args'] and t['args'][0]['k'] in ('copy', 'move') \
+                    and not t['args'][0]['pl']['p'] and state.get(t['args'][0]['pl']['l'], (None,))[0] == 'var':
+                v = state[t['args'][0]['pl']['l']][1]
+                ty = body.ty(t['args'][0]['pl']['l'])
+                if ty.get('p') == 'std::result::Result':
+                    new = ('var', 1 if v == 1 else 0)        # Err -> Break, Ok -> Continue
+                elif ty.get('p') == 'std::option::Option':
+                    new = ('var', 1 if v == 0 else 0)        # None -> Break, Some -> Continue
+            if t['dst']['p'] or new is None:
+                state.pop(dl, None)
+            else:
+                state[dl] = new
+        elif t['k'] == 'switch' and t['d']['k'] in ('copy', 'move') and not t['d']['pl']['p'] \
+                and state.get(t['d']['pl']['l'], (None,))[0] == 'int':
+            val = state[t['d']['pl']['l']][1]
+            tgt = [z['t'] for z in t['ts'] if int(z['v']) == val]
+            nxt = [tgt[0]] if tgt else [t['o']]
+        key = tuple(sorted(state.items()))
+        for y in nxt:
+            st.append((y, key))
+    return True
+
+
+def _step(body, x, state):
+    """one block of the variant-sensitive exploration: -> (successors, new state)"""
+    succ = body.succ()
+    state = dict(state)
+    bl = body.blocks[x]
+    for s_ in bl['st']:
+        if s_['k'] != 'assign':
+            continue
+        l = s_['pl']['l']
+        if s_['pl']['p']:
+            state.pop(l, None)
+            continue
+        rv = s_['rv']
+        if rv['k'] == 'agg' and rv.get('ak') == 'adt' and 'v' in rv and rv.get('p') in (
+                'std::result::Result', 'std::option::Option', 'std::ops::ControlFlow'):
+            state[l] = ('var', rv['v'])
+        elif rv['k'] == 'use' and rv['ops'][0]['k'] in ('copy', 'move') and not rv['ops'][0]['pl']['p'] \
+                and rv['ops'][0]['pl']['l'] in state:
+            state[l] = state[rv['ops'][0]['pl']['l']]
+        elif rv['k'] == 'discr' and not rv['pl']['p'] and state.get(rv['pl']['l'], (None,))[0] == 'var':
+            state[l] = ('int', state[rv['pl']['l']][1])
+        else:
+            state.pop(l, None)
+    t = bl['term']
+    nxt = succ[x]
+    if t['k'] == 'call':
+        dl = t['dst']['l']
+        new = None
+        if t.get('fn') == 'std::ops::Try::branch' and t['args'] and t['args'][0]['k'] in ('copy', 'move') \
+                and not t['args'][0]['pl']['p'] and state.get(t['args'][0]['pl']['l'], (None,))[0] == 'var':
+            v = state[t['args'][0]['pl']['l']][1]
+            ty = body.ty(t['args'][0]['pl']['l'])
+            if ty.get('p') == 'std::result::Result':
+                new = ('var', 1 if v == 1 else 0)
+            elif ty.get('p') == 'std::option::Option':
+                new = ('var', 1 if v == 0 else 0)
+        if t['dst']['p'] or new is None:
+            state.pop(dl, None)
+        else:
+            state[dl] = new
+    elif t['k'] == 'switch' and t['d']['k'] in ('copy', 'move') and not t['d']['pl']['p'] \
+            and state.get(t['d']['pl']['l'], (None,))[0] == 'int':
+        val = state[t['d']['pl']['l']][1]
+        tgt = [z['t'] for z in t['ts'] if int(z['v']) == val]
+        nxt = [tgt[0]] if tgt else [t['o']]
+    return nxt, state
+
+
+def passes_check(body, chk, target):
+    """every feasible path from the entry to `target` takes a continue edge of the check (variant-sensitive: the
+    reject edges of a folded validation helper re-join the continue path syntactically, but their `Err` leaves at
+    the `?` that follows)"""
+    cont = set(chk['cont'])
+    seen = set()
+    st = [(0, ())]
+    n = 0
+    while st:
+        x, stt = st.pop()
+        if (x, stt) in seen:
+            continue
+        seen.add((x, stt))
+        n += 1
+        if n > 20000:
+            return False
+        if x == target:
+            return False
+        nxt, state = _step(body, x, dict(stt))
+        key = tuple(sorted(state.items()))
+        for y in nxt:
+            if x == chk['bi'] and y in cont:
+                continue            # paths through the continue edge are fine: do not follow
+            st.append((y, key))
     return True
 
 
